@@ -29,6 +29,7 @@ def main(tier):
     chk.run("R-ROOTONLY", T.rootonly, r, s, cx.sites, floor=2, control=lambda: T.control_rootonly(r))
     chk.run("R-TYPEEQ", V.typeeq, r, floor=1)
     chk.run("R-ATTRTYPE", V.attrtype, r, floor=20)
+    chk.run("R-ERRSINK", P.errsink, r, floor=20)
     chk.run("R-SKIPLOSS", T.skiploss, r, s, cx.sites, modules=("type_check.py",), floor=3)
     chk.run("R-VALIDATORGUARD", V.validatorguard, r, s, floor=7, control=lambda: V.control(r))
     dctl = D.control(r)
